@@ -313,7 +313,8 @@ Inductive event := EvFrame (f : frame) | EvPeerUp.
 Record step := mkstep { s_now : Z; s_from : N; s_event : event; s_obs : obs }.
 
 (** [k_init]: sleep state when the first event arrives (0 awake, 1 sleeping, 2
-    polling: inside a poll window, the agent's doPoll running) *)
+    polling: inside a poll window, the agent's doPoll running; 3: sleep mode
+    disabled in the configuration - no sleep manager at all) *)
 Record acase := mkacase { k_start : Z; k_signing : bool; k_init : N; k_steps : list step }.
 
 Definition count_cb (k : kind) (ef : list effect) : N :=
@@ -343,30 +344,37 @@ Definition ticks_between (cfg : fcfg) (start prev now : Z) (ca : list entry) : l
 
 (** one step: cleanup passes since the previous step, the event, cleanup
     passes during the event (handleSleepCommand pauses 100 ms) *)
-Definition step_ok (cfg : fcfg) (start prev : Z) (st : astate) (s : step) : astate * Z * bool :=
+Definition step_ok (nosleep : bool) (cfg : fcfg) (start prev : Z) (st : astate) (s : step) : astate * Z * bool :=
   let st0 := mkastate (a_sleep st) (ticks_between cfg start prev (s_now s) (a_cache st)) (a_pending st) in
   let '(st1, ef, now') :=
     match s_event s with
+    | EvFrame (FQueued _ _) =>
+        (* handleQueuedState looks at the carried commands only when a sleep manager exists *)
+        if nosleep then (st0, [], s_now s) else on_frame cfg (s_now s) model_peers (s_from s) (match s_event s with EvFrame f => f | _ => FQueued None None end) st0
     | EvFrame f => on_frame cfg (s_now s) model_peers (s_from s) f st0
     | EvPeerUp => let '(st', ef) := on_peer_up cfg (s_now s) (s_from s) st0 in (st', ef, s_now s)
     end in
-  let st' := mkastate (a_sleep st1) (ticks_between cfg start (s_now s) now' (a_cache st1)) (a_pending st1) in
+  (* an agent whose sleep mode is disabled has no sleep manager: the flooder handles and
+     forwards the commands all the same, nothing is acted on *)
+  let st' := mkastate (if nosleep then Awake else a_sleep st1)
+                      (ticks_between cfg start (s_now s) now' (a_cache st1)) (a_pending st1) in
   let o := s_obs s in
   (st', now',
    N.eqb (sstate_code (a_sleep st')) (ob_state o) &&
-   N.eqb (count_cb KSleep ef) (ob_sleep_cb o) && N.eqb (count_cb KWake ef) (ob_wake_cb o) &&
+   N.eqb (if nosleep then 0%N else count_cb KSleep ef) (ob_sleep_cb o) &&
+   N.eqb (if nosleep then 0%N else count_cb KWake ef) (ob_wake_cb o) &&
    list_N_eqb (fwd_of KSleep ef) (ob_fwd_sleep o) && list_N_eqb (fwd_of KWake ef) (ob_fwd_wake o) &&
    keys_eqb (sorted_keys (a_cache st')) (ob_keys o)).
 
-Fixpoint steps_ok (cfg : fcfg) (start prev : Z) (st : astate) (ss : list step) : bool :=
+Fixpoint steps_ok (nosleep : bool) (cfg : fcfg) (start prev : Z) (st : astate) (ss : list step) : bool :=
   match ss with
   | [] => true
-  | s :: r => let '(st', prev', ok) := step_ok cfg start prev st s in ok && steps_ok cfg start prev' st' r
+  | s :: r => let '(st', prev', ok) := step_ok nosleep cfg start prev st s in ok && steps_ok nosleep cfg start prev' st' r
   end.
 
 Definition acase_ok (k : acase) : bool :=
-  steps_ok (default_cfg (k_signing k)) (k_start k) (k_start k)
-           (mkastate (match k_init k with 0%N => Awake | 1%N => Sleeping | _ => Polling end) [] None) (k_steps k).
+  steps_ok (N.eqb (k_init k) 3) (default_cfg (k_signing k)) (k_start k) (k_start k)
+           (mkastate (match k_init k with 1%N => Sleeping | 2%N => Polling | _ => Awake end) [] None) (k_steps k).
 
 Fixpoint amismatches_from (i : N) (cs : list acase) : list N :=
   match cs with
